@@ -80,7 +80,7 @@ def check(V, prop, tier, seed, cfg):
                 for rep in range(tcfg.get("reps", 1)):
                     s = base + n * 13 + rep * 1009
                     cap = [1, 2, 3, 4][(n + rep) % 4]
-                    jobs.append(("pair", kind, a, b, s, iters, 0, cap, 0, 0))
+                    jobs.append(("pair", kind, a, b, s, iters, rep % 2, cap, 0, 0))  # even reps: Tracked values, odd reps: std::string keys and values
                 n += 1
     for i in range(tcfg.get("programs", 0)):
         kind = KINDS[i % len(KINDS)]
